@@ -4,8 +4,9 @@
 (*                                                                         *)
 (* The server core as a state machine over request classes.  Standard      *)
 (* start state (set up by the harness with ordinary requests): clients 1   *)
-(* and 2 each have an activated session, one subscription and one          *)
-(* monitored item.  A step is one request  [cl, svc, arg, sess]:           *)
+(* and 2 each have an activated session, one subscription and two          *)
+(* monitored items (a node of the node namespace, a key of the map         *)
+(* namespace).  A step is one request  [cl, svc, arg, sess]:           *)
 (*   svc   every registered request type                                   *)
 (*   arg   argument class (zero / sub-millisecond / negative / huge        *)
 (*         intervals, own / foreign / unknown / stale ids, unknown nodes   *)
@@ -69,12 +70,20 @@ Unsupported == {"FindServersOnNetwork", "RegisterServer", "RegisterServer2", "Ca
                 "ModifyMonitoredItems", "SetTriggering"}
 
 Kinds ==
-    {[svc |-> "CreateSubscription", arg |-> a] : a \in {"normal", "zero", "subms", "negative", "huge"}}
-    \cup {[svc |-> "CreateMonitoredItems", arg |-> a] : a \in {"own", "foreign", "unknown", "ownEmpty", "ownUnknownNode", "ownHuge"}}
+    \* publishing interval classes: every special IEEE-754 value of the Double field, and the counters' extremes
+    {[svc |-> "CreateSubscription", arg |-> a] : a \in {"normal", "zero", "subms", "negative", "huge",
+                                                         "nan", "posinf", "neginf", "negzero", "denormal",
+                                                         "countsZero", "countsMax"}}
+    \cup {[svc |-> "CreateMonitoredItems", arg |-> a] : a \in {"own", "foreign", "unknown", "ownEmpty", "ownUnknownNode", "ownHuge", "ownMapKey",
+                                                           "ownSamplingNaN", "ownSamplingNegInf", "ownSamplingPosInf", "ownSamplingNeg",
+                                                           "ownQueueMax"}}
     \cup {[svc |-> s, arg |-> a] : s \in {"SetMonitoringMode", "DeleteMonitoredItems", "DeleteSubscriptions"},
                                    a \in {"own", "foreign", "unknown", "empty"}}
     \cup {[svc |-> "Publish", arg |-> a] : a \in {"noacks", "unknownAck", "flood150"}}   \* flood: more than the session's queue holds
-    \cup {[svc |-> s, arg |-> a] : s \in {"Read", "Write"}, a \in {"valid", "unknownNode", "unknownNs", "empty", "huge", "badAttr"}}
+    \cup {[svc |-> s, arg |-> a] : s \in {"Read", "Write"}, a \in {"valid", "unknownNode", "unknownNs", "empty", "huge", "badAttr",
+                                                                     "mapKey", "mapUnknownKey", "readOnly"}}
+    \cup {[svc |-> "Read", arg |-> a] : a \in {"maxAgeNaN", "maxAgeNegInf", "maxAgePosInf", "maxAgeNeg", "maxAgeMax"}}
+    \cup {[svc |-> "Write", arg |-> a] : a \in {"valueNaN", "valueInf", "tsExtreme"}}
     \cup {[svc |-> "Browse", arg |-> a] : a \in {"valid", "unknownNode", "unknownNs", "empty", "huge", "noSubtypes33", "unknownRefType"}}
     \cup {[svc |-> s, arg |-> "default"] : s \in {"CloseSession", "ActivateSession", "CreateSession", "GetEndpoints", "FindServers"}}
     \cup {[svc |-> s, arg |-> "default"] : s \in Unsupported}
@@ -84,6 +93,8 @@ Kinds ==
     \* the client subscribes to a node, leaves publish requests queued and drops its connection
     \* without deleting the subscription; the other client then changes the node many times at once
     \cup {[svc |-> "DeadSubscriber", arg |-> "queuedPublish"]}
+    \* the server application itself changes a monitored key of its map namespace (MapNamespace.SetValue)
+    \cup {[svc |-> "AppSetValue", arg |-> "monitoredKey"]}
 
 SessClasses == {"own", "none", "unknown"}
 
@@ -93,7 +104,8 @@ UseKinds == IF SvcFilter = {} THEN Kinds ELSE {k \in Kinds : k.svc \in SvcFilter
 Valid(c, s) == s = "own" /\ sess[c]
 
 \* which of the start-state objects an id class refers to ("own" may be stale by now)
-SubExists(c, a)  == IF a \in {"own", "ownEmpty", "ownUnknownNode", "ownHuge"} THEN sub[c]
+SubExists(c, a)  == IF a \in {"own", "ownEmpty", "ownUnknownNode", "ownHuge", "ownMapKey", "ownSamplingNaN", "ownSamplingNegInf",
+                             "ownSamplingPosInf", "ownSamplingNeg", "ownQueueMax"} THEN sub[c]
                     ELSE IF a = "foreign" THEN sub[Other(c)] ELSE FALSE
 ItemExists(c, a) == IF a = "own" THEN item[c] ELSE IF a = "foreign" THEN item[Other(c)] ELSE FALSE
 
@@ -101,7 +113,7 @@ ItemExists(c, a) == IF a = "own" THEN item[c] ELSE IF a = "foreign" THEN item[Ot
 Why(c, k, s) ==
     LET v == Valid(c, s) IN
     CASE k.svc = "CreateSubscription" ->
-            IF k.arg \in {"zero", "subms", "negative", "huge"} /\ Dev_TickerInterval /\ (v \/ Dev_NoSessionCheck) THEN "Dev_TickerInterval"
+            IF k.arg \in {"zero", "subms", "negative", "huge", "nan", "neginf", "negzero", "denormal"} /\ Dev_TickerInterval /\ (v \/ Dev_NoSessionCheck) THEN "Dev_TickerInterval"
             ELSE IF ~v /\ Dev_NoSessionCheck THEN "Dev_NoSessionCheck" ELSE ""
       [] k.svc = "CreateMonitoredItems" ->
             IF SubExists(c, k.arg) /\ ~v /\ Dev_NilSession THEN "Dev_NilSession" ELSE ""
@@ -135,7 +147,7 @@ Init == /\ alive = TRUE /\ sess = [c \in Clients |-> TRUE] /\ sub = [c \in Clien
         /\ item = [c \in Clients |-> TRUE] /\ hist = <<>>
 
 Next == \E c \in Clients, k \in UseKinds, s \in SessClasses :
-            (k.svc \in {"SlowSubscriber", "DeadSubscriber"} => s = "own") /\ Step(c, k, s)
+            (k.svc \in {"SlowSubscriber", "DeadSubscriber", "AppSetValue"} => s = "own") /\ Step(c, k, s)
 Spec == Init /\ [][Next]_vars
 
 \* C29: after every request sequence the server is alive and answers (the canary)
